@@ -69,10 +69,13 @@ func genResult(r *hx.Rand, i int) ResT {
 		if v == "" && !r.Chance(1, 4) {
 			continue
 		}
-		res.Cfg = append(res.Cfg, CfgT{"k" + strconv.Itoa(jj), v, true})
+		// the same key occurs as FILE configuration in most results and as INTERNAL configuration
+		// (Result.SetConfig) in some: `.config` and the residue cover File entries only
+		res.Cfg = append(res.Cfg, CfgT{"k" + strconv.Itoa(jj), v, !r.Chance(1, 6)})
 	}
 	if r.Chance(1, 3) {
-		res.Cfg = append(res.Cfg, CfgT{"i", hx.Pick(r, cvals[:3]), false})
+		// … and vice versa: mostly internal, sometimes a file key
+		res.Cfg = append(res.Cfg, CfgT{"i", hx.Pick(r, cvals[:3]), r.Chance(1, 4)})
 	}
 	if r.Chance(1, 3) {
 		res.Cfg = append(res.Cfg, CfgT{".file", hx.Pick(r, []string{"a.txt", "b.txt"}), false})
